@@ -82,6 +82,8 @@ package core
 //@   safety -all
 //@   assert-call send: ch == req.Res
 //@   ensures [answered-exactly-once] called(send) == 1
+//@   ensures [pending-close-cancelled-when-a-reader-attaches] has(pa.readers, req.Author) && !old(has(pa.readers, req.Author)) && old(pa.conf.Source != "publisher" && pa.conf.Source != "redirect" && pa.conf.SourceOnDemand) && old(pa.onDemandStaticSourceState) == 3 ==> pa.onDemandStaticSourceState == 2
+//@   ensures [pending-close-cancelled-when-a-reader-attaches-publisher] has(pa.readers, req.Author) && !old(has(pa.readers, req.Author)) && !old(pa.conf.Source != "publisher" && pa.conf.Source != "redirect" && pa.conf.SourceOnDemand) && old(pa.conf.RunOnDemand != "") && old(pa.onDemandPublisherState) == 3 ==> pa.onDemandPublisherState == 2
 //@   requires [limit-holds] pa.conf != nil && (pa.conf.MaxReaders == 0 || len(pa.readers) <= pa.conf.MaxReaders)
 //@   ensures [limit-preserved] pa.conf == old(pa.conf) && pa.conf.MaxReaders == old(pa.conf.MaxReaders) && (pa.conf.MaxReaders == 0 || len(pa.readers) <= pa.conf.MaxReaders)
 //@   ensures [not-counted-twice] old(has(pa.readers, req.Author)) ==> len(pa.readers) == old(len(pa.readers))
@@ -144,8 +146,11 @@ package core
 // publisher's sub stream is attached.
 
 //@ func (pa *path) doAddPublisher
-//@   property C16, C20
+//@   property C16, C19, C20
 //@   safety -all
+//@   assert-call send: ch == req.Res && called(send) == 1 && (value.Err == nil ==> called(consumeOnHoldRequests) == 1)
+//@   assert-call consumeOnHoldRequests: called(consumeOnHoldRequests) == 1 && called(send) == 0
+//@   ensures [publisher-answered-once] called(send) == 1
 //@   assert-call setAvailable: called(setAvailable) == 1 && (old(pa.source) != nil ==> called(executeRemovePublisher) == 1)
 //@   assert-call setOnline: called(setOnline) == 1 && (old(pa.source) != nil ==> called(executeRemovePublisher) == 1)
 //@   assert-call Publisher.Close: old(pa.source) != nil && old(pa.conf.OverridePublisher) && old(pa.conf.Source) == "publisher" && called(executeRemovePublisher) == 0
@@ -375,3 +380,13 @@ package core
 //@   ensures [one-available-pair-opened-on-success] result == nil ==> called(OnAvailable) == 1
 //@   ensures [no-pair-opened-on-failure] result != nil ==> called(OnAvailable) == 0 && called(setOnline) == 0
 //@   ensures [at-most-one-online-pair-opened-inside] called(setOnline) <= 1
+
+// C19 (the ready side): a static source that reports ready is answered exactly once, and a positive answer is given
+// only after the held requests were handed the stream (consumeOnHoldRequests, exactly once).
+
+//@ func (pa *path) doSourceStaticSetReady
+//@   property C19
+//@   safety -all
+//@   assert-call send: ch == req.Res && called(send) == 1 && (value.Err == nil ==> called(consumeOnHoldRequests) == 1)
+//@   assert-call consumeOnHoldRequests: called(consumeOnHoldRequests) == 1 && called(send) == 0
+//@   ensures [source-answered-once] called(send) == 1
